@@ -363,6 +363,20 @@ def _strip_simplify(t):
 def trust_sig(ctx, rel, qual, fn, rule="TRUST-SIG"):
     n = 0
     for c in ast.walk(fn):
+        if isinstance(c, ast.Call) and isinstance(c.func, ast.Name) and c.func.id == "cse":
+            # the temporaries' names come from a stream created for this very call: a stream kept on the object / module continues
+            # counting across emissions, so the same definition prints different names the second time
+            for k in c.keywords:
+                if k.arg == "symbols":
+                    v = k.value
+                    local_fresh = isinstance(v, (ast.GeneratorExp, ast.ListComp)) or \
+                        (isinstance(v, ast.Call) and ast.unparse(v.func).split(".")[-1] in ("numbered_symbols", "iter", "count"))
+                    if isinstance(v, ast.Name):
+                        defs = [a.value for a in ast.walk(fn) if isinstance(a, ast.Assign) and any(isinstance(t, ast.Name) and t.id == v.id for t in a.targets)]
+                        local_fresh = len(defs) == 1 and isinstance(defs[0], (ast.GeneratorExp, ast.Call))
+                    ctx.oblige("TMP-4", f"{rel}:{qual}", f"cse(symbols={ast.unparse(v)[:50]})", local_fresh, file=rel, func=qual, construct="cse symbols stream",
+                               msg=f"the names of the CSE temporaries are drawn from `{ast.unparse(v)[:60]}`, a stream that outlives this call: emitting the "
+                                   f"same block again continues the numbering (_t0.. becomes _tN..)", line=c.lineno)
         if isinstance(c, ast.Call) and isinstance(c.func, ast.Name) and c.func.id in TRUSTED_KW:
             n += 1
             extra = [k.arg for k in c.keywords if k.arg not in TRUSTED_KW[c.func.id]]
